@@ -27,6 +27,7 @@ type concProg struct {
 	GMP    int      `json:"gomaxprocs"` // > 0: runtime.GOMAXPROCS(GMP) around the program
 	EnvGMP int      `json:"envgmp"`     // > 0: the whole driver process was started with GOMAXPROCS=EnvGMP in its environment
 	Calls  []string `json:"calls"`
+	Reps   int      `json:"reps"` // each goroutine runs its call list this many times (0 = once), with fresh arguments each time
 }
 
 // a call that blocks forever poisons the process (its goroutines keep whatever they hold): after a hang no further program is run
@@ -136,6 +137,44 @@ func (d *driver) concCall(cfg *ipa.IPAConfig, op string, g, i int) []int {
 			b := cp[j].Bytes()
 			h.Write(b[:])
 		}
+	case "bigbatch":
+		// the batch helpers on ~100 projective elements, 20 times over: long and dense enough for two calls to be inside their
+		// loops at the same time (the arguments come from a read-only pool built once, so nearly all the time is library time)
+		n := 96 + (g+i)%33
+		pool := projPool(cfg)
+		cp := make([]banderwagon.Element, n)
+		ptrs := make([]*banderwagon.Element, n)
+		for j := range cp {
+			cp[j] = pool[(g*11+i+3*j)%len(pool)]
+			ptrs[j] = &cp[j]
+		}
+		for rep := 0; rep < 20; rep++ {
+			for _, b := range banderwagon.ElementsToBytes(ptrs...) {
+				h.Write(b[:])
+			}
+			for _, b := range banderwagon.BatchToBytesUncompressed(ptrs...) {
+				h.Write(b[:])
+			}
+		}
+		ms := make([]fr.Element, n)
+		mp := make([]*fr.Element, n)
+		for j := range ms {
+			mp[j] = &ms[j]
+		}
+		for rep := 0; rep < 5; rep++ {
+			err := banderwagon.BatchMapToScalarField(mp, ptrs)
+			h.Write([]byte(fmt.Sprint(err == nil)))
+			for j := range ms {
+				b := ms[j].Bytes()
+				h.Write(b[:])
+			}
+		}
+		err := banderwagon.BatchNormalize(ptrs)
+		h.Write([]byte(fmt.Sprint(err == nil)))
+		for j := range cp {
+			b := cp[j].Bytes()
+			h.Write(b[:])
+		}
 	case "transcript":
 		tr := common.NewTranscript("conc-tr")
 		for j := 0; j < 5; j++ {
@@ -160,6 +199,25 @@ func (d *driver) concCall(cfg *ipa.IPAConfig, op string, g, i int) []int {
 	return bytesToInts(h.Sum(nil))
 }
 
+var (
+	projOnce sync.Once
+	projElts []banderwagon.Element
+)
+
+// 512 valid elements in projective form (Z != 1, all different), built once, never written afterwards
+func projPool(cfg *ipa.IPAConfig) []banderwagon.Element {
+	projOnce.Do(func() {
+		projElts = make([]banderwagon.Element, 512)
+		for i := range projElts {
+			projElts[i].Add(&cfg.SRS[i%256], &cfg.SRS[(i*7+1+i/256)%256])
+			if i%5 == 0 {
+				projElts[i].Double(&projElts[i])
+			}
+		}
+	})
+	return projElts
+}
+
 func (d *driver) runConcProgram(w emitter, pid int, line []byte) {
 	var p concProg
 	if err := json.Unmarshal(line, &p); err != nil {
@@ -176,6 +234,13 @@ func (d *driver) runConcProgram(w emitter, pid int, line []byte) {
 		runtime.GOMAXPROCS(p.GMP)
 	}
 	K := p.K
+	if p.Reps > 1 { // unroll: position i of the unrolled list determines the arguments
+		base := p.Calls
+		p.Calls = nil
+		for r := 0; r < p.Reps; r++ {
+			p.Calls = append(p.Calls, base...)
+		}
+	}
 	w.emit(ev{"ev": "fp", "prog": pid, "when": "before", "cfg": fpConfig(cfg), "pkg": fpPackage()})
 	// sequential pass
 	seq := make([][][]int, K)
